@@ -308,14 +308,20 @@ def run(ctx):
     stats = {'ref': 0, 'budget': 0, 'cut': 0, 'matched': 0}
     with ProcessPoolExecutor(max_workers=16) as ex:
         results = list(ex.map(judge_chunk, [[it for _, it in ch] for ch in chunks]))
+    found = []
     for ch, rs in zip(chunks, results):
         for (j, _), (bad, st) in zip(ch, rs):
             for k2, v in st.items():
                 stats[k2] += v
             for (k, what, exp) in bad:
-                e = items[j]
-                res.violation({'what': what, 'input': [inp(e, k)], 'expected': exp, 'observed': parsed[j]['cases'][k]['raw'],
-                               'replay_note': 'python3 tools/check.py C10 --replay <this file>'})
+                found.append((sum(len(x) for x in items[j]['pats']) + len(items[j]['cases'][k][1]), j, k, what, exp))
+    # report the smallest failing inputs first (the generator is the shrinker: small patterns are frequent)
+    found.sort(key=lambda x: x[:3])
+    res.extra['oracle_failures'] = len(found)
+    for (_, j, k, what, exp) in found[:20]:
+        e = items[j]
+        res.violation({'what': what, 'input': [inp(e, k)], 'expected': exp, 'observed': parsed[j]['cases'][k]['raw'],
+                       'replay_note': 'python3 tools/check.py C10 --replay <this file>'})
     res.extra['reference_stats'] = stats
     for j in range(0, len(items), max(1, len(items) // 5)):
         res.sample({'request': inp(items[j]), 'answer': (pans[j] or '')[:200]})
